@@ -10,6 +10,7 @@ import TlsModel.Interop
     suite id                  -> <kx> <auth> <tls12Only>  | unknown
     vok id version            -> true|false   (suite defined for the version)
     ccert version cGroups sGroups keyType keyCurve      -> true|false  (client certificate usable)
+    csig version cSigs sSigs keyType keyCurve           -> true|false  (client CertificateVerify scheme available)
     resume mech cMechs sMechs v0 s0 <expect-args...>    -> true|false
 -/
 open Tls Tls.Interop
@@ -64,6 +65,9 @@ def handle : List String → Option String
   | ["ccert", v, cg, sg, kt, kc] => do
     let k ← parseKey kt (← kc.toNat?)
     some (boolOut (clientCertOk (← v.toNat?) ⟨[], [], ← parseNats cg, [], []⟩ ⟨[], [], ← parseNats sg, [], []⟩ k))
+  | ["csig", v, cs, ss, kt, kc] => do
+    let k ← parseKey kt (← kc.toNat?)
+    some (boolOut (clientSigOk (← v.toNat?) ⟨[], [], [], ← parseNats cs, []⟩ ⟨[], [], [], ← parseNats ss, []⟩ k))
   | ["suite", id] => do
     let id ← id.toNat?
     match suiteInfo id with
